@@ -83,6 +83,7 @@
 #include <errno.h>
 #include <pthread.h>
 #include <sys/wait.h>
+#include <time.h>
 
 #include <ufw/sx.h>
 
@@ -130,6 +131,16 @@ ledger_add(void *p)
     if (!ledger.on || p == NULL)
         return;
     ledger.made++;
+    if (ledger.norder >= LEDGER_MAX && ledger.live < LEDGER_MAX / 4 * 3) {
+        /* the session list also holds blocks that were released long ago (a
+         * reader that takes and releases a scratch block per token): rebuild
+         * it from the set of live blocks.  Only live blocks count. */
+        int k = 0;
+        for (uint32_t i = 0; i < LEDGER_SLOTS; ++i)
+            if (ledger.slot[i] != NULL)
+                ledger.order[k++] = ledger.slot[i];
+        ledger.norder = k;
+    }
     if (ledger.live >= LEDGER_MAX || ledger.norder >= LEDGER_MAX) {
         ledger.overflow = true;
         return;
@@ -1041,7 +1052,7 @@ run_one(int via, const char *in, size_t n, const struct expect *e, const char *c
                ctx, (int)res.status, res.position, tb, ledger.made, live);
     }
     if (ledger.overflow)
-        c20_fail("C20/terminates", "%smore than %d allocations for %zu input octets", ctx, LEDGER_MAX, n);
+        c20_fail("C20/terminates", "%smore than %d allocations live at once for %zu input octets", ctx, LEDGER_MAX / 4 * 3, n);
 
     /* unconditional: an error status comes without a tree and without live allocations */
     if (!is_success(res.status) && res.node != NULL)
@@ -1604,6 +1615,86 @@ static int64_t len_cases, depth_cases, hist_cases;
 #define LEN_DENSE (mc_thorough() ? 520u : 100u)
 #define DEPTH_DENSE (mc_thorough() ? 300u : 100u)
 
+/* Large inputs and the watchdog.  The statement says the reader terminates, it
+ * sets no complexity: a correct reader that appends each element by walking to
+ * the tail of the list needs seconds for 65537 elements under ASan.  So a case
+ * of size >= 4096 (elements, levels, octets of a symbol) states a budget in
+ * proportion to its size, and before the first such case of a family the process
+ * measures this reader once on an input of that family at a smaller scale and
+ * extrapolates quadratically: a case whose projected duration does not fit its
+ * budget with a margin of one half is not run (cap, never `hang`).  The clock
+ * only decides whether a case is run; it is never printed.  A replay runs the
+ * case (it did end in the run that recorded it). */
+enum { GF_LEN, GF_DEPTH, GF_SYMBOL, NGF };
+#define BIG_FROM 4096u
+
+static int
+big_budget(unsigned size)
+{
+    return 20 + (int)(size / (mc_thorough() ? 200u : 1000u));
+}
+
+static void put_flat(struct tbuf *b, unsigned L, int elems, const char *sep, int ending);
+static void put_symbol(struct tbuf *b, unsigned n);
+
+static double
+big_probe(int fam, unsigned *scale)
+{
+    static double secs[NGF];
+    static const unsigned SCALE[NGF] = { 16384u, 2048u, 16384u };
+    *scale = SCALE[fam];
+    if (secs[fam] > 0.0)
+        return secs[fam];
+    static struct tbuf pb;
+    tb_reset(&pb);
+    if (fam == GF_LEN)
+        put_flat(&pb, SCALE[fam], EL_INTS, " ", FE_COMPLETE);
+    else if (fam == GF_DEPTH)
+        put_nest(&pb, SCALE[fam], "(a ", "x", " b)", SCALE[fam]);
+    else
+        put_symbol(&pb, SCALE[fam]);
+    char *buf = mc_exact_copy(pb.p, pb.n);
+    struct timespec t0, t1;
+    ledger_start();
+    clock_gettime(CLOCK_MONOTONIC, &t0);
+    struct sx_parse_result res = sx_parse_stringn(buf, pb.n);
+    if (res.node != NULL)
+        sx_destroy(&res.node);
+    clock_gettime(CLOCK_MONOTONIC, &t1);
+    ledger.on = false;
+    free(buf);
+    double dt = (double)(t1.tv_sec - t0.tv_sec) + 1e-9 * (double)(t1.tv_nsec - t0.tv_nsec);
+    if (dt < 1e-6)
+        dt = 1e-6;
+    secs[fam] = dt;
+    return dt;
+}
+
+/* Call right after c20_case() returned true.  True: the case is not to be run
+ * (the caller closes it with c20_end(false, "big-skipped-slow")). */
+static bool
+big_gate(int fam, unsigned size)
+{
+    if (size < BIG_FROM)
+        return false;
+    const int budget = big_budget(size);
+    mc_budget(budget);
+    if (mc.only >= 0)
+        return false;
+    unsigned scale;
+    const double t = big_probe(fam, &scale);
+    mc_budget(budget); /* the probe's time is not the case's */
+    const double f = (double)size / (double)scale;
+    if (t * f * f * 2.0 <= (double)budget)
+        return false;
+    static bool said[NGF];
+    static const char *const FN[NGF] = { "lists", "nests", "symbols" };
+    if (!said[fam])
+        mc_cap("big-slow: at the measured speed of this reader (probe at size %u, extrapolated quadratically) the largest %s do not fit their time budget: such cases not run", scale, FN[fam]);
+    said[fam] = true;
+    return true;
+}
+
 static void
 len_case(unsigned L, int elems, int wrap, int ending, bool trailing, int sepk)
 {
@@ -1614,6 +1705,10 @@ len_case(unsigned L, int elems, int wrap, int ending, bool trailing, int sepk)
         if (!c20_case("len L=%u elems=%s wrap=%s end=%s%s sep=%s via=%s", L, ELEMS_NAME[elems], WRAP_NAME[wrap],
                      FLATEND_NAME[ending], trailing ? "+trailing" : "", SEP_NAME[sepk], via ? "stringn" : "string"))
             continue;
+        if (big_gate(GF_LEN, L)) {
+            c20_end(false, "big-skipped-slow");
+            continue;
+        }
         tb_reset(&gen);
         if (wrap == WR_IN2)
             tb_puts(&gen, "(a ");
@@ -1699,6 +1794,10 @@ depth_case(unsigned D, int shape, int atom, int ending)
         if (!c20_case("depth D=%u shape=%s atom=%s end=%s via=%s", D, DSHAPE_NAME[shape], DATOM[atom], DEND_NAME[ending],
                      via ? "stringn" : "string"))
             continue;
+        if (big_gate(GF_DEPTH, D)) {
+            c20_end(false, "big-skipped-slow");
+            continue;
+        }
         const char *open = shape == DS_NEST ? "(" : "(a ";
         const char *close = shape == DS_NEST ? ")" : " b)";
         tb_reset(&gen);
@@ -1788,6 +1887,10 @@ atom_case(bool is_symbol, unsigned symlen, uint64_t v, int radix, int ctx)
             : c20_case("atom integer %" PRIu64 " %s in %s via=%s", v, RADIX_NAME[radix], ATOM_CONTEXT[ctx], via ? "stringn" : "string");
         if (!run)
             continue;
+        if (is_symbol && big_gate(GF_SYMBOL, symlen)) {
+            c20_end(false, "big-skipped-slow");
+            continue;
+        }
         tb_reset(&gen);
         for (const char *c = ATOM_CONTEXT[ctx]; *c; ++c) {
             if (*c != '@')
